@@ -181,7 +181,7 @@ func (h *c17Hist) neutralise(feat string) *c17Hist {
 var c17NeutralPaths = []string{"a.txt", "data1", "out.log", "sub/f.txt", "notes", "b-2.cfg", "sub/deep.dat", "A_B.TXT",
 	"a_rather_long_file_name_that_goes_on_and_on_for_more_than_sixty_four_bytes.txt"}
 var c17ExtPaths = []string{"sp ace.txt", " lead", "trail ", "two  blanks", "-dash", "--", "-n", "st*r", "q?m", "br[a]ck", "a*", "semi;colon", "amp&er", "pipe|p", "lt<gt>",
-	"par(en)", "hash#", "#hash", "~tilde", "quo'te", "dq\"uote", "$dollar", "$HOME", "back\\slash", "tick`t", "tab\there", "sub/sp ace", "excl!", "br{a,b}ce", "eq=ual", "per%cent", "$(id)", "new\nline"}
+	"par(en)", "hash#", "#hash", "~tilde", "quo'te", "dq\"uote", "$dollar", "$HOME", "back\\slash", "tick`t", "tab\there", "sub/sp ace", "excl!", "br{a,b}ce", "eq=ual", "per%cent", "$(id)", "new\nline", "out:~", "~", "a:~:b"}
 var c17NeutralContents = []string{"Hello World", "Hello Moon", "abc", "42", "line one", "x", "The quick brown fox", "key=value", "a,b,c", "UPPER lower 123", "dots.and-dashes_ok", "path/like/value",
 	// words that end or start something in a shell script when they stand alone on a line
 	"EOF", "END", "EOT", "done", "fi", "exit",
@@ -191,7 +191,9 @@ var c17NeutralContents = []string{"Hello World", "Hello Moon", "abc", "42", "lin
 var c17ExtContents = []string{"", "", "a\n", "two lines\nend\n", "\n", "one \ntwo", "x\t\ny", "a  \n  b", "end \n", " \n ", " lead", "trail ", "two  blanks", "   ", "tab\there", "\tlt", "a\nb", "a\n\nb", "*", "a*", "?", "[a]", "* *", ";", "a;b", "&", "a&&b", "|", "a|b", "<", ">", "a>b", "(", ")", "(x)",
 	"#", "# not a comment", "~", "~root", "'", "it's", "\"", "say \"hi\"", "$", "$HOME", "${PATH}", "$(id)", "`id`", "`", "\\", "a\\nb", "\\\\", "C:\\dir", "-n", "-e", "-E", "-neE", "-x", "--", "- n", "-n x",
 	"!", "!!", "{a,b}", "%s", "%d%%", "\\t", "$1", "$?", "a=b",
-	"EOF\nafter", "before\nEOF\nafter", "_EOF_", "__END__", "HEREDOC", ".", "}", "esac\n;;", "done\nfi"}
+	"EOF\nafter", "before\nEOF\nafter", "_EOF_", "__END__", "HEREDOC", ".", "}", "esac\n;;", "done\nfi",
+	// a tilde where an ASSIGNMENT expands it (after a colon, after the equals sign), brace and history forms
+	"backup@server:~/data", "PATH=/usr/local/bin:~/bin", "out:~", "~/x", "a:~:b", "x=~", ":~+", "{1..3}", "a{b,c}d", "!$", "^a^b"}
 
 func c17Gen(rng *gen.Rng, population string) *c17Hist {
 	h := &c17Hist{Population: population}
@@ -324,7 +326,7 @@ func c17Gen(rng *gen.Rng, population string) *c17Hist {
 			burst--
 			p = burstPath
 		}
-		render := rng.Pick([]string{"top", "direct", "direct", "direct", "funcparam", "funcglobal", "funcdirect", "nested", "nested", "if", "ifdirect", "for", "fordirect", "shared", "shared", "unused", "elsedirect", "scopes", "reexec", "paramglobal", "untilexists", "nottaken"})
+		render := rng.Pick([]string{"top", "direct", "direct", "direct", "funcparam", "funcglobal", "funcdirect", "nested", "nested", "if", "ifdirect", "for", "fordirect", "shared", "shared", "unused", "elsedirect", "scopes", "reexec", "paramglobal", "untilexists", "nottaken", "multiret"})
 		if inBurst {
 			render = rng.Pick([]string{"direct", "direct", "top"})
 		}
@@ -1030,6 +1032,10 @@ func (h *c17Hist) render(seed uint64) []*c17Segment {
 				fmt.Fprintf(&sb, "var rr%d string\nif true {\nrr%d = read(%s)\n}\n", id, id, pe)
 			case "fordirect":
 				fmt.Fprintf(&sb, "var rr%d string\nfor it%d := 0; it%d < 1; it%d++ {\nrr%d = read(%s)\n}\n", id, id, id, id, id, pe)
+			case "multiret":
+				// the value is the FIRST of several results, and a later result is a user function call
+				fmt.Fprintf(&sb, "func gk%d(b%d string) string {\nreturn b%d + \"!\"\n}\nfunc fn%d(a%d string) (string, string, int) {\nreturn read(a%d), gk%d(\"k\"), len(gk%d(\"kk\"))\n}\nrr%d, gs%d, gi%d := fn%d(%s)\nprint(\"<<N>>\" + gs%d, gi%d)\n",
+					id, id, id, id, id, id, id, id, id, id, id, id, pe, id, id)
 			case "scopes":
 				nm := rng.Pick([]string{"tmpv", "scratch", "acc", "cur", "buf", "line0"}) // (no theme and no generated identifier uses these: a block variable may not shadow a global)
 				fmt.Fprintf(&sb, "func fn%d(a%d string) string {\n%s := a%d + \"!\"\nreturn %s\n}\nvar rr%d string\nif true {\n%s := %s\nk%d := fn%d(\"k\")\nrr%d = read(%s)\nprint(\"<<N>>\" + k%d)\n}\n",
